@@ -160,6 +160,20 @@ C20(c) == LET o == c.obs IN
     /\ \A i \in DOMAIN o.mocks : o.mocks[i].found
     /\ \A i \in DOMAIN c.solo : MockShape(c.solo[i]) = MockShape(o.mocks[c.soloIdx[i]])
 
+(* ---------------------------------------------------------------- C15 ---- *)
+(* library level: with moq's own output installed in the source package the  *)
+(* same request yields the same bytes (obs.distinct counts the outputs of    *)
+(* the first and the second generation)                                      *)
+C15(c) == (c.obs.typeErrors = <<>>) => c.obs.distinct = 1
+
+(* ---------------------------------------------------------------- C17 ---- *)
+(* library level: a failing request hands no Go source to the writer, and    *)
+(* the writer is used at most once, only when everything else succeeded      *)
+C17(c) == LET o == c.obs IN
+    /\ o.writes <= 1
+    /\ (o.exit = "error" /\ ~c.failingWriter) => (o.writes = 0 /\ o.written = 0)
+    /\ (o.exit = "error") => ~(o.wroteSource /\ ~c.failingWriter)
+
 (* ---------------------------------------------------------------- C19 ---- *)
 C19(c) == /\ c.obs.exit \in {"ok", "error"}
           /\ c.obs.exit = "error" => c.obs.err # ""
@@ -171,6 +185,7 @@ Check(name, ok) == IF ok THEN {} ELSE {name}
 (* the properties this corpus is built to decide                             *)
 Verdict(c) ==
     Check("C19", ("C19" \in Range(c.judge)) => C19(c)) \cup
+    Check("C17", ("C17" \in Range(c.judge) /\ c.obs.exit \in {"ok", "error"}) => C17(c)) \cup
     (IF c.obs.exit # "ok" THEN {} ELSE
        Check("C01", ("C01" \in Range(c.judge)) => C01(c)) \cup
        Check("C02", ("C02" \in Range(c.judge)) => C02(c)) \cup
@@ -182,6 +197,7 @@ Verdict(c) ==
        Check("C13", ("C13" \in Range(c.judge)) => C13(c)) \cup
        Check("C13drift", ("C13" \in Range(c.judge)) => C13Drift(c)) \cup
        Check("C14", ("C14" \in Range(c.judge)) => C14(c)) \cup
+       Check("C15", ("C15" \in Range(c.judge)) => C15(c)) \cup
        Check("C16", ("C16" \in Range(c.judge)) => C16(c)) \cup
        Check("C20", ("C20" \in Range(c.judge)) => C20(c)))
 
